@@ -79,7 +79,7 @@ func report(c *fw.Ctx, o *Obs, cj []byte, fs []finding) {
 
 func init() {
 	// ---------------- C01 ----------------
-	prValid := &Profile{Sets: defaultSets, Kinds: validKinds, ValidOnly: true}
+	prValid := &Profile{Sets: defaultSets, Kinds: validKinds, ValidOnly: true, Huge: true}
 	monC01f := func(c *fw.Ctx, o *Obs, cj []byte) bool {
 		if !o.Valid {
 			c.Rec.Count("skipped:invalid-after-placement")
